@@ -3,7 +3,8 @@ C23 — Java string literals denote exactly the original string.
 Property theorems only (lemmas: AgVerif/Proof/JavaString.lean).
 
 Model: AgVerif.JavaString (`writer.string()` and the `str` branch of `Writer.visit_constant`, with
-fixes/C23-surrogate-pair.diff).  Spec: AgVerif.Spec.JavaLex (JLS §3.3 Unicode escapes with the
+fixes/C23-surrogate-pair.diff); its literals are AgVerif.Gen.JString, regenerated from the source each run by
+gen/jstring.py, which also pins the shape of `string()` (a different algorithm = broken obligation).  Spec: AgVerif.Spec.JavaLex (JLS §3.3 Unicode escapes with the
 backslash-parity and multiple-`u` rules, §3.10.5 string literals, §3.10.7 escape sequences, UTF-16).
 A Python `str` is a list of code points (`IsCodePoint`: below 0x110000, lone surrogates allowed).
 All theorems quantify over every string.
@@ -60,7 +61,7 @@ theorem unfixed_refuted :
   have := h [0x1F600] (by decide)
   revert this
   have e : escapeUnfixed [0x1F600] = [0x22, 0x5c, 0x75, 0x31, 0x66, 0x36, 0x30, 0x30, 0x22] := by
-    simp [escapeUnfixed, escCharUnfixed, uEscape, hexDigits, hexNib]
+    simp [escapeUnfixed, escCharUnfixed, uEscape_def, hexDigits, hexNib]
   rw [e]
   decide
 
